@@ -102,7 +102,7 @@ package cert
 // SetPrivateKey: the context keeps the key; its SubjectPublicKeyInfo names rsaEncryption with NULL parameters and the
 // PKCS#1 public key, or id-ecPublicKey with the named curve of the key and the uncompressed point.
 //@ func (*CertificateContext).SetPrivateKey returns (err)
-//@   props C05 C14
+//@   props C05 C14 C20
 //@   uses keys.smt2 ec.smt2
 //@   given NAMEOIDS
 //@   given NAMEOIDSOK
@@ -111,8 +111,10 @@ package cert
 //@   let K = typed(unboxRef(key), "*crypto/ecdsa.PrivateKey")
 //@   let R = typed(unboxRef(key), "*crypto/rsa.PrivateKey")
 //@   let SPKI = ctx.TbsCertificate.PublicKey
-//@   assume typeis(key, "*crypto/ecdsa.PrivateKey") ==> K != nil && K.Curve != nil && K.X != nil && K.Y != nil && 4 <= curveId(K.Curve) && curveId(K.Curve) <= 13
-//@   assume typeis(key, "*crypto/rsa.PrivateKey") ==> R != nil && R.PublicKey.N != nil
+// a key handed in is a usable key object, never a typed nil pointer inside the interface (callers prove it: C20)
+//@   requires @C20 typeis(key, "*crypto/ecdsa.PrivateKey") || typeis(key, "*crypto/rsa.PrivateKey") ==> unboxRef(key) != 0
+//@   assume typeis(key, "*crypto/ecdsa.PrivateKey") ==> K.Curve != nil && K.X != nil && K.Y != nil && 4 <= curveId(K.Curve) && curveId(K.Curve) <= 13
+//@   assume typeis(key, "*crypto/rsa.PrivateKey") ==> R.PublicKey.N != nil
 //@   assigns ctx.PrivateKey; ctx.TbsCertificate.PublicKey
 //@   ensures @C05,C14 ctx.PrivateKey == key
 //@   ensures @C05,C14 typeis(key, "*crypto/rsa.PrivateKey") ==> err == nil && oidv(SPKI.Algorithm.Algorithm) == oid("1.2.840.113549.1.1.1") && SPKI.Algorithm.Parameters.Tag == 5 && SPKI.Algorithm.Parameters.Class == 0 && len(SPKI.Algorithm.Parameters.FullBytes) == 0 && len(SPKI.Algorithm.Parameters.Bytes) == 0 && bytes(SPKI.PublicKey.Bytes) == pkcs1pub(BigVal(R.PublicKey.N), R.PublicKey.E)
